@@ -44,14 +44,23 @@ def dirsDir (v : View) (d : Nat) : String :=
   let b := v.b
   "{" ++ s!"hdr={d}:28 ch={ddCharacteristics b d} ts={ddTimeDateStamp b d} ver={ddMajor b d}.{ddMinor b d} ty={ddType b d} sz={ddSizeOfData b d} aord={ddAddressOfRawData b d} ptr={ddPointerToRawData b d} data={optRef (dirData v d)} entry={dirsEntry v (dirEntry v d)}" ++ "}"
 
+def winStr : Option (Nat × Nat) → String
+  | some (p, n) => s!"{p}:{n}"
+  | none => "none"
+
+def debugSpecLine (v : View) : String :=
+  match Spec.debugWindows v with
+  | .ok ws => s!"spec=n={ws.length},data=[{join (ws.map winStr)}]"
+  | o => "spec=" ++ sub (fun _ => "") o
+
 def debugDump (v : View) : String :=
   match debugTryFrom v with
   | .ok t =>
     let n := debugCount t
     let ents := (List.range n).map fun i => dirsDir v (debugEntryOff t i)
     let ans := s!"ok dir={ref t} n={n} pdb={optRef (pdbFileName v t)} [{join ents ";"}]"
-    ans ++ s!" ## {Spec.debugSpecLine v}"
-  | o => outStr (fun _ => "") o ++ s!" ## {Spec.debugSpecLine v}"
+    ans ++ s!" ## {debugSpecLine v}"
+  | o => outStr (fun _ => "") o ++ s!" ## {debugSpecLine v}"
 
 def vaList (v : View) (r : Ref) : String :=
   let ps := v.fmt.ptrSize
@@ -59,11 +68,20 @@ def vaList (v : View) (r : Ref) : String :=
 
 def valRef (v : View) (r : Ref) : String := s!"{ref r}={le32 v.b r.off}"
 
+def tlsSpecLine (v : View) (t : Ref) : String :=
+  let ps := v.fmt.ptrSize
+  match v.at (.va (tlsCallBacks v t)) 0 ps with
+  | .ok s =>
+    (match Spec.vaListUntilZero v.b s.off ps (s.len / ps) with
+     | some l => s!"cbs=[{join (l.map toString)}]"
+     | none => "cbs=!Bounds")
+  | o => "cbs=" ++ sub (fun _ => "") o
+
 def tlsDump (v : View) : String :=
   match tlsTryFrom v with
   | .ok t =>
     s!"ok img={ref t} start={tlsStart v t} end={tlsEnd v t} index={tlsIndex v t} cb={tlsCallBacks v t} zero={tlsZeroFill v t} chars={tlsChars v t} raw={sub ref (tlsRawData v t)} slot={sub (valRef v) (tlsSlot v t)} cbs={sub (vaList v) (tlsCallbacks v t)}"
-      ++ s!" ## {Spec.tlsSpecLine v t}"
+      ++ s!" ## {tlsSpecLine v t}"
   | o => outStr (fun _ => "") o
 
 def loadcfgDump (v : View) : String :=
@@ -105,8 +123,19 @@ def excLookup (v : View) (pc : Nat) : String :=
     ans ++ s!" ## spec={spec} hyp={if Spec.sortedTable v.b t then 1 else 0}"
   | o => outStr (fun _ => "") o
 
+def securitySpecLine (v : View) : String :=
+  match v.kind with
+  | .view => "spec=!Unmapped hyp=1"
+  | .file =>
+    match v.dataDir 4 with
+    | some (va, size) =>
+      if Spec.CertWellFormed v.b.size va size then
+        s!"spec=type={Spec.certType v.b va},data={ref (Spec.certBytes va size)} hyp=1"
+      else "hyp=0"
+    | none => "hyp=0"
+
 def securityDump (v : View) : String :=
-  let spec := s!" ## {Spec.securitySpecLine v}"
+  let spec := s!" ## {securitySpecLine v}"
   match securityTryFrom v with
   | .ok s =>
     (match secImage v s, secCertType v s, secCertData v s with
